@@ -29,6 +29,9 @@ import (
 
 type C11Case struct {
 	Groups    [][]ref.Cmd `json:"groups"` // each: lets followed by one msg
+	// Carriers (parallel to Groups): 0 the message stands in the block itself; 1 inside a {let} content
+	// block that is printed; 2 inside a {param} content block of a call that prints it; 3 both
+	Carriers []int `json:"carriers,omitempty"`
 	Catalogue string      `json:"catalogue"`
 	Locale    string      `json:"locale"`
 }
@@ -103,10 +106,7 @@ func partsOf(lets []ref.Cmd, body []ref.Cmd, names map[string]string) ([]c11Part
 		case "sp":
 			addText(" ")
 		case "print":
-			key := "print:" + gen.PrintExpr(c.Expr)
-			for _, d := range c.Directives {
-				key += "|" + d.Name
-			}
+			key := "print:" + gen.PrintExpr(c.Expr) + gen.PrintDirectives(c.Directives)
 			v, err := valueOf(c)
 			if err != nil {
 				return nil, err
@@ -185,9 +185,22 @@ func checkC11(c C11Case) Verdict {
 	}
 	// the bundle: every group in its own block
 	var body []ref.Cmd
-	for _, g := range c.Groups {
+	raw := []ref.Directive{{Name: "noAutoescape"}}
+	for gi, g := range c.Groups {
 		// every let is referenced once more (in a branch that never runs), so none is unused
 		gb := append([]ref.Cmd{}, g...)
+		if gi < len(c.Carriers) && c.Carriers[gi] > 0 {
+			msg := gb[len(gb)-1]
+			inner := []ref.Cmd{msg}
+			if c.Carriers[gi]&2 != 0 {
+				inner = []ref.Cmd{{K: "call", Call: &ref.Call{Target: "m.echo", Params: []ref.Param{{Key: "v", IsBlock: true, Content: inner}}}}}
+			}
+			if c.Carriers[gi]&1 != 0 {
+				zc := fmt.Sprintf("zc%d", gi)
+				inner = []ref.Cmd{{K: "letc", Var: zc, Body: inner}, {K: "print", Expr: varE(zc), Directives: raw}}
+			}
+			gb = append(gb[:len(gb)-1:len(gb)-1], inner...)
+		}
 		for _, l := range g {
 			if l.K == "let" {
 				gb = append(gb, ref.Cmd{K: "if", Branches: []ref.Branch{{Cond: &ref.Expr{Op: "bool", B: false}, Body: []ref.Cmd{printVar(l.Var)}}}})
@@ -195,7 +208,8 @@ func checkC11(c C11Case) Verdict {
 		}
 		body = append(body, ref.Cmd{K: "if", Branches: []ref.Branch{{Cond: &ref.Expr{Op: "bool", B: true}, Body: gb}}}, txt(" / "))
 	}
-	prog := &ref.Program{Files: []ref.File{{Name: "m.soy", Namespace: "m", Templates: []ref.Template{{Name: "t", Body: body}}}}}
+	prog := &ref.Program{Files: []ref.File{{Name: "m.soy", Namespace: "m", Templates: []ref.Template{{Name: "t", Body: body},
+		{Name: "echo", Params: []ref.ParamDecl{{Name: "v"}}, Body: []ref.Cmd{{K: "print", Expr: varE("v"), Directives: raw}}}}}}}
 	names, srcs := gen.Sources(prog)
 	src := showSources(names, srcs)
 	source := ref.Render(prog, "m.t", nil, nil, false)
@@ -428,6 +442,7 @@ func genC11(t *rapid.T) C11Case {
 			}
 		}
 		c.Groups = append(c.Groups, grp)
+		c.Carriers = append(c.Carriers, rapid.SampledFrom([]int{0, 0, 1, 2, 3}).Draw(t, "carrier"))
 	}
 	return c
 }
